@@ -209,10 +209,73 @@ func codecStep(dir string, f []string) (res string) {
 			}
 		}
 		return "ok " + readFileHex(s.Log) + " " + readFileHex(s.Index) + extra
+	case "pubseg":
+		// pubseg t k base loghex idxhex msgs...: Open, Publish, Close on a directory with this one segment
+		p := index.Params{Times: f[1] == "1", Keys: f[2] == "1"}
+		s := putFiles(dir, atoi(f[3]), f[4], f[5])
+		lg, err := klevdb.Open(dir, klevdb.Options{KeyIndex: p.Keys, TimeIndex: p.Times, Rollover: 100000000})
+		if err != nil {
+			return "err " + errClass(err)
+		}
+		var msgs []klevdb.Message
+		for _, t := range f[6:] {
+			msgs = append(msgs, parseMsg(t))
+		}
+		if _, err := lg.Publish(msgs); err != nil {
+			lg.Close()
+			return "err " + errClass(err)
+		}
+		if err := lg.Close(); err != nil {
+			return "err " + errClass(err)
+		}
+		return "ok " + readFileHex(s.Log) + " " + readFileHex(s.Index)
+	case "dirq":
+		// dirq t k ro n (base loghex idxhex)*n -- queries: open with default options and query
+		p := index.Params{Times: f[1] == "1", Keys: f[2] == "1"}
+		n := int(atoi(f[4]))
+		i := 5
+		for j := 0; j < n; j++ {
+			putFiles(dir, atoi(f[i]), f[i+1], f[i+2])
+			i += 3
+		}
+		if f[i] != "--" {
+			panic("dirq: expected --")
+		}
+		lg, err := klevdb.Open(dir, klevdb.Options{KeyIndex: p.Keys, TimeIndex: p.Times, Readonly: f[3] == "1", Rollover: 100000000})
+		if err != nil {
+			return "openerr " + errClass(err)
+		}
+		defer lg.Close()
+		var outs []string
+		for _, q := range f[i+1:] {
+			outs = append(outs, safeQuery(lg, strings.Split(q, ":")))
+		}
+		return strings.Join(outs, " ; ")
 	case "hash":
 		return fmt.Sprint(index.KeyHash(unhx(f[1])))
 	}
 	return "err UnknownOp"
+}
+
+func safeQuery(l klevdb.Log, q []string) (res string) {
+	defer func() {
+		if r := recover(); r != nil {
+			res = "err Panic"
+		}
+	}()
+	switch q[0] {
+	case "cons":
+		return doCons(l, atoi(q[1]), atoi(q[2]))
+	case "get":
+		return doGet(l, atoi(q[1]))
+	case "getk":
+		return doGetK(l, unhx(q[1]))
+	case "gett":
+		return doGetT(l, atoi(q[1]))
+	case "consk":
+		return doConsK(l, unhx(q[1]), atoi(q[2]), atoi(q[3]))
+	}
+	return "err UnknownQuery"
 }
 
 func runCodec(a []string) {
